@@ -28,6 +28,13 @@ def scenarios():
     return out
 
 
+def scenarios_wide():
+    """one caller is inside a long body (140 other distinct invocations happen meanwhile) when a second caller asks for
+    the same call: lock tables, caches and stacks see many entries come and go while an invocation is in progress"""
+    return [dict(backend="fs", budget=0, name="fs/cold/long-body-same", warm=[], threads=[[["tw", 1]], [["tw", 1]]], max_steps=400000),
+            dict(backend="memory", budget=0, name="memory/cold/long-body-same", warm=[], threads=[[["tw", 1]], [["tw", 1]]], max_steps=400000)]
+
+
 def scenarios3():
     out = []
     for backend, budget in (("fs", 300), ("memory", 0)):
@@ -85,6 +92,16 @@ def run(prop, tier):
             chunk = max(20, len(scheds) // 8)
             for i in range(0, len(scheds), chunk):
                 jobs.append({"scenario": s, "schedules": scheds[i:i + chunk]})
+        wide = scenarios_wide()
+        wprobe = common.run_jobs("sched_worker.py", [{"scenario": s, "schedules": [{"start": 0, "preempts": []}]} for s in wide], wd)
+        for s, p in zip(wide, wprobe):
+            n = p["steps"]
+            # n = decision points of the whole first call (the second caller is then served from the store)
+            fr = (0.5, 0.93, 0.96, 0.985) if quick else (0.1, 0.2, 0.3, 0.4, 0.5, 0.6, 0.7, 0.8, 0.9, 0.93, 0.95, 0.96, 0.97, 0.98, 0.985, 0.99)
+            scheds = [{"start": s0, "preempts": [[max(2, int(n * x)), 1 - s0]]} for s0 in (0, 1) for x in fr]
+            scheds += [{"random": r.randrange(1 << 30), "p": 0.0005} for _ in range(2 if quick else 10)]
+            for i in range(0, len(scheds), 2):
+                jobs.append({"scenario": s, "schedules": scheds[i:i + 2]})
         if not quick:
             for s in scenarios3():
                 scheds = [{"random": r.randrange(1 << 30), "p": r.choice([0.05, 0.15, 0.4])} for _ in range(600)]
